@@ -395,8 +395,12 @@ def r10_1(ctx):
         b = ctx.F.body(q)
         an = ctx.an(b)
         key = short(q)
-        if not ctx.check(q in allowed_direct, R, key + '|uses the rasteriser', b.loc(), 'audited user of the rasteriser', '%s feeds or runs the shared rasteriser but is not one of the audited entry points %s' % (short(q), sorted(short(x) for x in allowed_direct))):
-            continue
+        if q not in allowed_direct:
+            # a further user of the shared rasteriser (a new entry point): the same law applies to it — that it is a method
+            # of DrawTarget taking `&mut self` is what makes the rasteriser its to use
+            okm = q.startswith(DT) and b.argc >= 1 and b.local_ty(1).startswith('&mut') and 'DrawTarget' in b.local_ty(1)
+            if not ctx.check(okm, R, key + '|uses the rasteriser', b.loc(), 'a DrawTarget method with exclusive access', '%s feeds or runs the shared rasteriser but is neither one of the audited entry points %s nor a `&mut self` method of DrawTarget' % (short(q), sorted(short(x) for x in allowed_direct))):
+                continue
         resets = set(bi for bi, d, ct in calls_in(ctx, b) if d == RAS + 'reset')
         first = [bi for bi, d in users[q]]
         ok = bool(resets)
